@@ -83,64 +83,3 @@ Proof.
   intros jobs s. split; [|split; [apply gate_tie | reflexivity]].
   unfold loop_cond, gen_loop_goes_on. destruct (inflight s); reflexivity.
 Qed.
-
-(* ---------------------------------------------------------------------------------------------
-   The executor's remaining decisions, as TRANSLATED from executor.py / ops/operation.py of the working tree. *)
-
-(* _process_finished_op: the dependents that become ready are exactly those for which the translated test on the
-   (already decremented) counter says "enqueue", in deps_of order; the finished operation is appended to the completed
-   list; nothing else changes *)
-Lemma process_finished_tie : forall p s o,
-  let ds := deps_of p o in
-  let w' := fun x => (waiting s x - Planner.count x ds)%nat in
-  let newly := filter (fun d => gen_enqueue_dependent (w' d)) ds in
-  readyS (process_finished p s o) = readyS s ++ filter (fun d => negb (is_par p d)) newly /\
-  readyP (process_finished p s o) = readyP s ++ filter (is_par p) newly /\
-  completed (process_finished p s o) = completed s ++ [o] /\
-  (forall x, waiting (process_finished p s o) x = w' x) /\
-  gen_finished_op_steps = [1%N; 2%N; 3%N].
-Proof.
-  intros p s o ds w' newly. unfold process_finished. cbn [readyS readyP completed waiting].
-  assert (E : newly = filter (fun d => Nat.eqb (w' d) 0) ds).
-  { unfold newly. apply filter_ext. intro d. unfold gen_enqueue_dependent. destruct (w' d); reflexivity. }
-  rewrite E. repeat split; reflexivity.
-Qed.
-
-(* the skip test of the launch loop: the dequeued operation is skipped exactly when the translated test holds of
-   "all its execution dependencies succeeded" (Operation.exe_deps_succeeded = all(succeeded) over exe_deps;
-   succeeded = SUCCEEDED or SUCCEEDED_CACHED, the latter never set by the executor) *)
-Lemma skip_tie : forall p jobs stop orc s,
-  let o := fst (fst (dequeue s)) in
-  gen_skips (forallb (succeeded s) (exe_deps p o)) = true ->
-  trace (launch_one p jobs stop orc s) = ESkip o :: trace s /\
-  ost (launch_one p jobs stop orc s) o = SKIPPED.
-Proof.
-  intros p jobs stop orc s. unfold launch_one. destruct (dequeue s) as [[o rS] rP]. cbn [fst].
-  unfold gen_skips. intro H. rewrite H. unfold process_finished, mark, take, upd. cbn [trace ost].
-  rewrite Nat.eqb_refl. split; reflexivity.
-Qed.
-
-Lemma succeeded_tie : forall s o,
-  succeeded s o = gen_op_succeeded (ostate_eqb (ost s o) SUCCEEDED) false.
-Proof. intros s o. unfold succeeded, gen_op_succeeded. now rewrite orb_false_r. Qed.
-
-(* _wait_for_next_inflight_op returns `error_occurred and stop_on_first_error`: the model stops after a wait exactly
-   when the translated expression holds of (the reaped process failed, --stop-early) *)
-Lemma wait_stop_tie : forall failed stop, gen_wait_stops failed stop = failed && stop.
-Proof. reflexivity. Qed.
-
-(* the verdict of _report_execution_results *)
-Lemma verdict_tie : forall a b c, gen_verdict_done a b c = a && (b || c).
-Proof. reflexivity. Qed.
-
-Lemma report_tie : forall p root s,
-  let all_ok := forallb (succeeded s) (completed s) in
-  let main_exec := existsb (fun o => Nat.eqb (op_task (opi p o)) root) (completed s) in
-  let main_cached := match completed s with [] => mem root (p_cached p) | _ => false end in
-  (gen_verdict_done all_ok main_exec main_cached = true -> report p root s = [EDone; EKill (map fst (procs s))]) /\
-  (gen_verdict_done all_ok main_exec main_cached = false -> ~ In EDone (report p root s)).
-Proof.
-  intros p root s all_ok main_exec main_cached. unfold report. fold all_ok. fold main_exec. fold main_cached.
-  rewrite verdict_tie. split; intro H; rewrite H; [reflexivity|].
-  destruct (filter _ (completed s)); cbn; intros [E|[E|[]]]; discriminate E.
-Qed.
